@@ -189,7 +189,10 @@ func warmUp(t *core.Tape, st *core.Stats, schema *jsonapi.Schema, method, rawURL
 func runC01(t *core.Tape, st *core.Stats) *core.Violation {
 	const P = "C01"
 
-	spec := world.DrawSchema(t, schemaOpts(8))
+	so := schemaOpts(8)
+	so.TagOptions = true
+
+	spec := world.DrawSchema(t, so)
 
 	var (
 		schema *jsonapi.Schema
@@ -209,8 +212,10 @@ func runC01(t *core.Tape, st *core.Stats) *core.Violation {
 	}
 
 	if err != nil {
+		// the generated schema is valid by construction (distinct plain names, existing
+		// targets): a refusal is the library's
 		st.Inc("probe:schema-refused")
-		return nil
+		return viol(P, "valid-input-accepted", "Schema", "build-schema", "the library refuses a schema that is valid by construction (via a longer edit history: %v): %v", viaHistory, err)
 	}
 
 	ts := spec.Types[t.Draw(len(spec.Types))]
@@ -299,10 +304,10 @@ func runC01(t *core.Tape, st *core.Stats) *core.Violation {
 	st.Inc("op:MarshalDocument")
 
 	if err != nil {
+		// the URL names the type and nothing else, the resource is well typed: "marshaling
+		// the resource" has to succeed for the round trip to exist at all
 		st.Inc("probe:send-refused")
-		t.Logf("send refused: %v", err)
-
-		return nil
+		return viol(P, "valid-input-accepted", "NewURLFromRaw/MarshalDocument", impl, "the sender's URL %q or document is refused although valid by construction: %v\n    resource: %s", rawURL, err, rs.Describe())
 	}
 
 	t.Logf("message: %s", msg)
@@ -606,7 +611,7 @@ func runC02(t *core.Tape, st *core.Stats) *core.Violation {
 
 	if err != nil {
 		st.Inc("probe:schema-refused")
-		return nil
+		return viol(P, "valid-input-accepted", "Schema", "build-schema", "the library refuses a schema that is valid by construction (via a longer edit history: %v): %v", viaHistory, err)
 	}
 
 	ds := world.DrawDoc(t, spec, world.DocOptions{MaxPrimary: 5, MaxIncluded: 4, InclPairs: true, Errors: true, ExoticIDs: false})
@@ -638,10 +643,9 @@ func runC02(t *core.Tape, st *core.Stats) *core.Violation {
 	st.Inc("op:MarshalDocument")
 
 	if err != nil {
+		// URL and document are valid by construction (existing types and fields only)
 		st.Inc("probe:send-refused")
-		t.Logf("send refused: %v", err)
-
-		return nil
+		return viol(P, "valid-input-accepted", "NewURLFromRaw/MarshalDocument", ds.Kind, "the sender's URL %q or document is refused although valid by construction: %v\n    %s", ds.RawURL(nil), err, ds.Describe())
 	}
 
 	t.Logf("message: %s", msg)
